@@ -110,6 +110,12 @@ type EnvSpec struct {
 	Body   *int64    `json:"body,omitempty"`
 	Trl    string    `json:"trl"` // "none" | "ok:<tok>" | "bad"
 	Rst    bool      `json:"rst,omitempty"`
+	// Guess: when the call has put nothing on the wire (its id was never observed) the envelope is addressed to the id the
+	// call WOULD have been given (ids are allocated consecutively: C05_counter) instead of an id nobody owns. On the
+	// unchanged tree an open only fails before its id is allocated or while writing; the flag matters when an open fails
+	// AFTER the registration (Raw is filled in by the rig)
+	Guess bool   `json:"guess,omitempty"`
+	Raw   uint64 `json:"raw,omitempty"`
 }
 
 type CAct struct {
@@ -119,6 +125,58 @@ type CAct struct {
 	B    int64    `json:"b,omitempty"`
 	Env  *EnvSpec `json:"env,omitempty"`
 	On   bool     `json:"on,omitempty"`
+	MD   string   `json:"md,omitempty"` // caller metadata of an open (unary / stream): see callerMD; "" = chosen by the rig
+}
+
+// Caller metadata as a dimension of every open. Request metadata is opaque to the client model (it is compared by C04 /
+// C08): whatever the caller attaches, the open must behave as without it - on the unchanged tree every one of these is put
+// on the wire as it is.
+var mdKinds = []string{"none", "ordinary", "none", "grpc-trace-id", "grpc-timeout", "none", "space", "upper", "nonascii", "ordinary", "empty-key",
+	"nul", "nonprint", "none", "many17", "grpc-status", "bin", "pseudo"}
+
+func callerMD(kind string) metadata.MD {
+	switch kind {
+	case "", "none":
+		return nil
+	case "ordinary":
+		return metadata.MD{"x-request-id": {"r-17"}, "authorization": {"bearer abc"}}
+	case "grpc-trace-id":
+		return metadata.MD{"grpc-trace-id": {"4bf92f3577b34da6"}}
+	case "grpc-timeout":
+		return metadata.MD{"grpc-timeout": {"1H"}}
+	case "grpc-status":
+		return metadata.MD{"Grpc-Status": {"0"}, "x-a": {"1"}}
+	case "space":
+		return metadata.MD{"key with space": {"v"}}
+	case "upper":
+		return metadata.MD{"X-Upper-Case": {"V"}}
+	case "nonascii":
+		return metadata.MD{"cl\u00e9-\u043a\u043b\u044e\u0447": {"\u00fc\u00f1\u00ee"}}
+	case "empty-key":
+		return metadata.MD{"": {"v"}}
+	case "nul":
+		return metadata.MD{"x-nul": {"a\x00b"}}
+	case "nonprint":
+		return metadata.MD{"x-ctl": {"\x01\x02\x7f", "tab\there"}}
+	case "bin":
+		return metadata.MD{"x-blob-bin": {"\x00\x01\x02"}}
+	case "pseudo":
+		return metadata.MD{":authority": {"h"}}
+	case "many17":
+		md := metadata.MD{}
+		for i := 0; i < 17; i++ {
+			md[fmt.Sprintf("x-k%02d", i)] = []string{fmt.Sprint(i), "w"}
+		}
+		return md
+	}
+	panic("unknown metadata kind " + kind)
+}
+
+func withCallerMD(ctx context.Context, kind string) context.Context {
+	if md := callerMD(kind); md != nil {
+		return metadata.NewOutgoingContext(ctx, md)
+	}
+	return ctx
 }
 
 func mdvCoq(s string) string {
@@ -206,6 +264,8 @@ func (a CAct) coq(ids map[int]uint64) string {
 		id := uint64(9999)
 		if a.Env.Call >= 0 {
 			id = ids[a.Env.Call]
+		} else if a.Env.Raw != 0 {
+			id = a.Env.Raw
 		}
 		return "ADeliver " + a.Env.coq(id)
 	case "failread":
@@ -356,6 +416,8 @@ type clientRig struct {
 	stats    *recStats
 	payloads []int64
 	wfailOn  bool
+	guess    map[int]uint64 // call -> the id it is given if every call before it allocated one
+	guessMax uint64
 	wrFailed map[int]bool // streams one of whose SendMsg / CloseSend failed with the transport's write error
 }
 
@@ -477,12 +539,29 @@ func envProj(w *Rpc) string {
 	return fmt.Sprintf("(mkEnv %d %s %s %s %s %s)", w.Id, hdr, st, body, trl, coqBool(w.Reset_ != nil))
 }
 
+// noteGuess records the id call c is given if every call created before it allocated one.
+func (r *clientRig) noteGuess(c int) {
+	m := r.guessMax
+	for _, w := range r.ep.WrittenCopy() {
+		if w.Id > m {
+			m = w.Id
+		}
+	}
+	if r.guess == nil {
+		r.guess = map[int]uint64{}
+	}
+	r.guess[c] = m + 1
+	r.guessMax = m + 1
+}
+
 func (r *clientRig) do(a CAct) {
 	switch a.Op {
 	case "unary":
 		c := r.nCalls
 		r.nCalls++
 		ctx := newManualCtx()
+		r.noteGuess(c)
+		cctx := withCallerMD(ctx, a.MD)
 		r.ctxs = append(r.ctxs, ctx)
 		r.strs = append(r.strs, nil)
 		r.kinds = append(r.kinds, "unary")
@@ -495,7 +574,7 @@ func (r *clientRig) do(a CAct) {
 		_ = before
 		go func() {
 			var out wrapperspb.BytesValue
-			err := r.invokeGuard(ctx, c, &out)
+			err := r.invokeGuard(cctx, c, &out)
 			res := ""
 			if err == nil {
 				res = fmt.Sprintf("(UOk %s)", coqZ(tokenOf(out.Value)))
@@ -509,6 +588,8 @@ func (r *clientRig) do(a CAct) {
 		c := r.nCalls
 		r.nCalls++
 		ctx := newManualCtx()
+		r.noteGuess(c)
+		cctx := withCallerMD(ctx, a.MD)
 		r.ctxs = append(r.ctxs, ctx)
 		r.strs = append(r.strs, nil)
 		r.kinds = append(r.kinds, "stream")
@@ -518,7 +599,7 @@ func (r *clientRig) do(a CAct) {
 		}
 		r.setPending(fmt.Sprintf("(%d, 0)", c), true)
 		go func() {
-			cs, err := r.cc.NewStream(ctx, descBidi, "/verif.Echo/Bidi")
+			cs, err := r.cc.NewStream(cctx, descBidi, "/verif.Echo/Bidi")
 			r.mu.Lock()
 			r.strs[c] = cs
 			r.mu.Unlock()
@@ -635,6 +716,10 @@ func (r *clientRig) do(a CAct) {
 	case "deliver":
 		id := uint64(9999)
 		method := "/verif.Echo/Unary"
+		if a.Env.Call < 0 && a.Env.Raw != 0 {
+			id = a.Env.Raw
+			method = "/verif.Echo/Bidi"
+		}
 		if a.Env.Call >= 0 {
 			id = r.ids[a.Env.Call]
 			if a.Env.Call < len(r.kinds) && r.kinds[a.Env.Call] == "stream" {
@@ -902,10 +987,19 @@ func runClientScenario(t *testing.T, idx int, kind string, sc clientScenario, em
 			term := ""
 			if a.Op == "deliver" && a.Env.Call >= 0 {
 				if _, ok := rig.ids[a.Env.Call]; !ok {
-					// the call has not written anything yet: deliver to an unknown id instead
-					a.Env = &EnvSpec{Call: -1, Hdr: a.Env.Hdr, Status: a.Env.Status, Body: a.Env.Body, Trl: a.Env.Trl, Rst: a.Env.Rst}
+					// the call has not written anything yet: deliver to an unknown id instead (or, Guess, to the id it would have)
+					raw := uint64(0)
+					if a.Env.Guess {
+						raw = rig.guess[a.Env.Call]
+					}
+					a.Env = &EnvSpec{Call: -1, Hdr: a.Env.Hdr, Status: a.Env.Status, Body: a.Env.Body, Trl: a.Env.Trl, Rst: a.Env.Rst, Raw: raw}
 					sc.Acts[i] = a
 				}
+			}
+			if (a.Op == "unary" || a.Op == "stream") && a.MD == "" {
+				// caller metadata is a dimension of EVERY open of every scenario
+				a.MD = mdKinds[(idx*7+i*13)%len(mdKinds)]
+				sc.Acts[i] = a
 			}
 			if a.Op == "tick" || a.Op == "close" {
 				a.On = rig.wfailOn
